@@ -42,7 +42,7 @@ def program(rng, tier):
     ops += [f"net seed {rng.randrange(10 ** 6)}", "net trace 0", f"net latency 1 {rng.choice([1, 20, 150])}",
             f"net loss {rng.choice([0, 0, 20])} 2"]
     if use_turn:
-        ops.append(f"server 127.0.0.60:3478 turn {rng.choice(['a', 'a', 'a', 'ua', 'd', 'ue', 'n'])} user pass")
+        ops.append(f"server 127.0.0.60:3478 turn {rng.choice(['a', 'a', 'a', 'ua', 'd', 'ue', 'n', 'aad', 'aad', 'uaad', 'aae', 'aaad'])} user pass")   # ..d: the server goes silent after allocating
     ops.append(f"new A ctrl={rng.randint(0, 1)} compat=0 opts={opts} addrs=127.0.0.1" + (",127.0.0.2" if rng.random() < 0.3 else ""))
     ops.append(f"new B ctrl={rng.randint(0, 1)} compat=0 opts={opts} addrs=127.0.1.1")
     ops.append("fds")
@@ -136,7 +136,7 @@ def program(rng, tier):
     for ag in "AB":
         if alive[ag]:
             ops.append(f"unref {ag}")
-    ops += ["drain", "run 1500", "drain", "fds"]
+    ops += ["drain", "run 4000", "drain", "fds"]       # > the 2 s a deallocation nobody answers takes to time out (rc=3, rto=500)
     return [o for o in ops if o]
 
 
